@@ -166,13 +166,13 @@ def permuteGo (dims : List Nat) (strides : List Int) : List Int → Except Err (
       .ok (dims.getD p.toNat 0 :: nd, strides.getD p.toNat 0 :: ns)
     else .error .invalid_dimension
 
-/-- `Array::permute(const Index* idim)`.  The second loop ("Missing dimension") only tests whether a
-    *new dimension* is zero, so a repeated `idim` entry is accepted. -/
+/-- `Array::permute(const Index* idim)`.  The second loop ("Missing dimension") requires every dimension of
+    the current array to be used exactly once (a repeated `idim` entry is rejected). -/
 def permute (v : View) (p : List Int) : Except Err View :=
   if p.length ≠ v.dims.length ∨ v.dims.length ≠ v.strides.length ∨ v.dims = [] then .error .bad_rank else
   if v.isEmpty then .error .empty_array else do
     let (nd, ns) ← permuteGo v.dims v.strides p
-    if nd.any (· == 0) then .error .invalid_dimension else
+    if (List.range v.dims.length).any (fun d => decide ((p.filter (· = (d : Int))).length ≠ 1)) || nd.any (· == 0) then .error .invalid_dimension else
     .ok ⟨v.base, nd, ns⟩
 
 /-- `Array::diag_vector(offdiag)` (rank 2).  For an `empty()` matrix the C++ returns a
